@@ -269,6 +269,8 @@ def programs(draw, strict=False, max_nodes=14, maxdepth=3, with_test_start=True,
       'fexc': _weighted(draw, [([], 6), (['A'], 2), (['B'], 1), (['A', 'B'], 1)]),
       'callbacks': draw(st.lists(st.integers(0, 1), max_size=3)) if with_callbacks else [],
   }
+  if draw(st.integers(0, 7)) == 0:
+    opts['capsrc'] = True       # CONF.capture_source: the record carries the source of the phases
   return {'nodes': nodes, 'test_start': ts, 'tdiags': tdiags, 'opts': opts}
 
 
@@ -787,4 +789,6 @@ def conf_values(prog):
   v = {'allow_unset_measurements': bool(o.get('allow_unset'))}
   if o.get('sof') == 'conf':
     v['stop_on_first_failure'] = True
+  if o.get('capsrc'):
+    v['capture_source'] = True
   return v
